@@ -125,6 +125,13 @@ class C01(object):
                 "refused_call": rnd.random() < 0.4,
                 # the table object had read another file (sc/fc titles, other detector positions) before it read this one,
                 # which uses the older xc/yc titles
+                # another table is updated (for a grain elsewhere) after this one: this one's columns stay what they were
+                "lookback": rnd.random() < 0.3,
+                # Python threads sharing ONE Ctransform object, each asking for its own grain position
+                "shared_ct": None if rnd.random() < 0.6 else {
+                    "trs": [[rnd.choice([0.0, 50.0, -120.5]), rnd.uniform(-300, 300), rnd.uniform(-300, 300)] for _ in range(rnd.choice([2, 2, 3]))],
+                    "sseed": rnd.getrandbits(48), "strategy": rnd.choice(["random", "random", "pct", "rr"]), "p_inv": rnd.choice([1, 2, 4]),
+                    "quantum": rnd.choice([1, 2, 5]), "pct_d": rnd.choice([1, 2, 3])},
                 "reread_xcyc": rnd.random() < 0.2, "position_story": rnd.choice([None, None, "fast", "slow"]),
                 # history: a long-lived columnfile first updated with OTHER parameters, which are then edited in place
                 "history": None if rnd.random() < 0.5 else {"first_pars": (draw_pars(rnd) if rnd.random() < 0.6 else "tiny"),
@@ -132,6 +139,57 @@ class C01(object):
                                                                                  "tilt_x", "tilt_y", "tilt_z"]),
                                                                      rnd.choice([1e-6, 4e-6, 1e-5, 1e-4])],
                                                             "edit": rnd.choice(["set", "set_parameters", "dict"])}}
+
+    def shared_ct(self, desc, ctx, ct, sc, fc, om, sts):
+        """2-3 Python threads (seeded scheduler, pre-emption at the source lines / byte codes of transform.py) use one Ctransform
+        object at the same time, each for a grain at its own position: everybody gets what the same call gives when made alone"""
+        from pysched import pysched
+        sim = ctx.sim
+        c = desc["shared_ct"]
+        trs = c["trs"]
+        enginea.apply_cfg(sim, dict(desc["cfgP"], team=1), strict=0, track_conflicts=0, pct_est=100, step_cap=4000000000)
+        sim.begin_run()
+        viol = None
+        with contextlib.redirect_stdout(io.StringIO()):
+            x3 = ct.sf2xyz(sc, fc)
+            solo = [(np.array(ct.sf2gv(sc, fc, om, *t)), np.array(ct.xyz2geometry(x3, om, *t))) for t in trs]
+        results = [None] * len(trs)
+        sched = pysched.Sched(c["sseed"], strategy=c["strategy"], p_inv=c["p_inv"], quantum=c["quantum"], pct_d=c["pct_d"],
+                              pct_est=40 * len(trs), step_cap=200000, trace_files=[self.transform.__file__],
+                              replay=desc.get("replay_py"))
+
+        def worker(i):
+            results[i] = (np.array(ct.sf2gv(sc, fc, om, *trs[i])), np.array(ct.xyz2geometry(x3, om, *trs[i])))
+
+        def main():
+            ths = [sched.spawn(lambda i=i: worker(i), "py%d" % i) for i in range(len(trs))]
+            for th in ths:
+                sched.join(th)
+            return ths
+        ths = []
+        try:
+            with contextlib.redirect_stdout(io.StringIO()):
+                ths = sched.run(main) or []
+        except pysched.Deadlock as e:
+            viol = {"class": "deadlock", "key": "geometry:shared-ctransform:deadlock", "detail": str(e)}
+        except pysched.StepCap as e:
+            viol = {"class": "no-progress", "key": "geometry:shared-ctransform:no-progress", "detail": str(e)}
+        sts.append(sim.stats())
+        for i, th in enumerate(ths):
+            if viol is None and getattr(th, "exc", None) is not None:
+                if runner.is_harness_exception(th.exc):
+                    raise th.exc
+                viol = {"class": "raises", "key": "geometry:shared-ctransform:raises",
+                        "detail": "thread %d of %d sharing one Ctransform: %s: %s" % (i, len(trs), type(th.exc).__name__, th.exc)}
+        for i in range(len(trs)):
+            if viol is not None:
+                break
+            if results[i] is None or results[i][0].tobytes() != solo[i][0].tobytes() or results[i][1].tobytes() != solo[i][1].tobytes():
+                which = "sf2gv" if (results[i] is None or results[i][0].tobytes() != solo[i][0].tobytes()) else "xyz2geometry"
+                viol = {"class": "not-reentrant", "key": "geometry:shared-ctransform:not-reentrant",
+                        "detail": "%d Python threads use one Ctransform object, each for its own grain position: thread %d gets another "
+                                  "%s result (position %s) than the same call made alone" % (len(trs), i, which, np.round(trs[i], 2).tolist())}
+        return viol, len(trs)
 
     def describe(self, desc):
         return {"pars": desc["pars"], "npeaks": len(desc["sc"]), "cfg": desc["cfg"], "cfgP": desc["cfgP"],
@@ -259,6 +317,7 @@ class C01(object):
         sim.begin_run()
         Pcols = {}
         story_damage, position_story = None, 0
+        lookback, lookback_damage, shared_ct_threads = 0, None, 0
         reread = 0
         refusal_damage = None
         with contextlib.redirect_stdout(io.StringIO()):
@@ -351,12 +410,28 @@ class C01(object):
                 gv, gx, gy, gz = pbp.get_local_gv(0, 0, 1.0, om, np.sin(np.radians(om)), np.cos(np.radians(om)),
                                                   xyz[:, 0].copy(), xyz[:, 1].copy(), xyz[:, 2].copy())
                 Pcols = {"lgx": gx, "lgy": gy, "lgz": gz}
+            if route in ("updateGeometry", "updateGV") and desc.get("lookback") and n and Pcols:
+                before_ = {c_: np.array(Pcols[c_], copy=True) for c_ in Pcols}
+                lb = base.copy()
+                lb.updateGeometry(pars=P2, translation=(-40.0, 12.5, 3.0), fast=True)
+                lb.updateGV(pars=P2, translation=(7.0, -1.0, 2.5), fast=True)
+                lookback = 1
+                for c_ in Pcols:
+                    if np.asarray(cp.getcolumn(c_)).tobytes() != before_[c_].tobytes() or np.asarray(Pcols[c_]).tobytes() != before_[c_].tobytes():
+                        lookback_damage = c_
+                        break
         stP = sim.stats()
         sts.append(stP)
         if viol is None and story_damage is not None:
             viol = {"class": "fast-route-differs", "key": "geometry:position-leaks",
                     "detail": "after updateGeometry(translation=...) for a grain elsewhere, a table sharing the parameter object gives "
                               "another %s than the table that was updated without a translation" % story_damage}
+        if viol is None and lookback_damage is not None:
+            viol = {"class": "fast-route-differs", "key": "geometry:columns-change-later",
+                    "detail": "column %s of a table changed when ANOTHER table of as many peaks was updated for a grain elsewhere "
+                              "(%s, fast route)" % (lookback_damage, route)}
+        if viol is None and route == "sf2gv" and desc.get("shared_ct") and n:
+            viol, shared_ct_threads = self.shared_ct(desc, ctx, ct, sc, fc, om, sts)
         if viol is None and refusal_damage is not None:
             viol = {"class": "refused-call-modified-output", "key": "geometry:refused-call-modified-output",
                     "detail": "sf2gv(out=gv) refused a call (omega one element short) but the caller's g-vector array was overwritten "
@@ -419,6 +494,8 @@ class C01(object):
         meas["preexisting_derived_columns"] = {str(desc.get("preexisting")): 1}
         meas["table_object_reused_for_an_xc/yc_file"] = reread
         meas["update_after_a_translation=_update"] = position_story
+        meas["another_table_updated_afterwards"] = lookback
+        meas["python_threads_sharing_one_Ctransform"] = shared_ct_threads
         meas["history_runs(in-place parameter edit between updates)"] = 1 if (desc.get("history") and route in ("updateGeometry", "updateGV")) else 0
         meas["branch_cut_peaks_excluded"] = int(cut.sum())
         meas["np_empty_garbage_buffers"] = self.proxy.count
